@@ -164,6 +164,8 @@ package web
 //@   ensures[C12] signed: result1 == nil && h.hostSelection == "signed" ==> listed(h, result0) && mapHas(#lastQuery, "host") && #queryTok == #lastQuery["host"][0] && #queryIssuer == h.queryTokenIssuer
 //@   ensures[C12] unsigned: result1 == nil && h.hostSelection == "unsigned" ==> listed(h, result0) && mapHas(#lastQuery, "host") && result0 == #lastQuery["host"][0]
 //@   ensures[C12] any: result1 == nil && h.hostSelection == "any" ==> mapHas(#lastQuery, "host") && result0 == #lastQuery["host"][0]
+// a requested value is written into the connection file as one line: it cannot start further settings lines
+//@   ensures[C12] oneLine: result1 == nil && h.hostSelection == "any" ==> !strings.ContainsAny(result0, "\r\n")
 //@   site web.QueryInfoFunc requires[C12] tokenAndIssuer: arg1 == hosts[0] && arg2 == h.queryTokenIssuer
 //@   nopanic[C10]
 
